@@ -822,18 +822,30 @@ func (p *printer) compoundInt(t *Term, a []string, s *Sort) string {
 	case OLe:
 		return "(<= " + a[0] + " " + a[1] + ")"
 	case OAdd:
+		if noWrap(t) {
+			return "(+ " + a[0] + " " + a[1] + ")"
+		}
 		return p.wrap1("(+ "+a[0]+" "+a[1]+")", s)
 	case OSub:
+		if noWrap(t) {
+			return "(- " + a[0] + " " + a[1] + ")"
+		}
 		return p.wrap1("(- "+a[0]+" "+a[1]+")", s)
 	case OAddNW:
 		return "(+ " + a[0] + " " + a[1] + ")"
 	case OSubNW:
 		return "(- " + a[0] + " " + a[1] + ")"
 	case ONeg:
+		if noWrap(t) {
+			return "(- " + a[0] + ")"
+		}
 		return p.wrap1("(- "+a[0]+")", s)
 	case OMul:
 		if !t.Args[0].IsConst() && !t.Args[1].IsConst() {
 			p.usesNIA = true
+		}
+		if noWrap(t) {
+			return "(* " + a[0] + " " + a[1] + ")"
 		}
 		return p.wrap("(* "+a[0]+" "+a[1]+")", s)
 	case ODiv, ORem:
@@ -849,6 +861,9 @@ func (p *printer) compoundInt(t *Term, a []string, s *Sort) string {
 	case OConv:
 		from := t.Args[0].Sort
 		if from.Min().Cmp(s.Min()) >= 0 && from.Max().Cmp(s.Max()) <= 0 {
+			return a[0]
+		}
+		if noWrap(t) {
 			return a[0]
 		}
 		if from.W == s.W || (from.W < s.W) {
@@ -876,6 +891,9 @@ func (p *printer) compoundInt(t *Term, a []string, s *Sort) string {
 					return "(ite (< " + a[0] + " 0) (- 1) 0)"
 				}
 				if t.Op == OShl {
+					if noWrap(t) {
+						return "(* " + a[0] + " " + pow2(n).String() + ")"
+					}
 					return p.wrap("(* "+a[0]+" "+pow2(n).String()+")", s)
 				}
 				return "(div " + a[0] + " " + pow2(n).String() + ")"
@@ -1117,6 +1135,9 @@ var AbstractBits bool
 // QueryUsedAbstraction reports whether the last Query call actually abstracted something.
 var QueryUsedAbstraction bool
 
+// QueryGoalMarker: the assertion to label in the rendered query (debugging aid).
+var QueryGoalMarker *Term
+
 func Query(mode Mode, asserts []*Term, getvals []*Term) (text string, err error) {
 	defer func() {
 		if r := recover(); r != nil {
@@ -1130,8 +1151,16 @@ func Query(mode Mode, asserts []*Term, getvals []*Term) (text string, err error)
 	p := &printer{mode: mode, done: map[int]string{}, decls: map[string]string{}, abstractBits: AbstractBits && mode == ModeInt}
 	defer func() { QueryUsedAbstraction = p.usedAbstraction }()
 	var body []string
+	seenA := map[int]bool{}
 	for _, a := range asserts {
+		if seenA[a.id] || a.IsTrue() {
+			continue
+		}
+		seenA[a.id] = true
 		r := p.ref(a)
+		if a == QueryGoalMarker {
+			body = append(body, "; negated goal")
+		}
 		body = append(body, "(assert "+r+")")
 	}
 	var gv []string
@@ -1264,4 +1293,135 @@ func maybeBits(t *Term, depth int) *big.Int {
 		return all
 	}
 	return nil
+}
+
+// ---- interval analysis (int mode): a conservative value range per term, used to drop the
+// wrap-around case split of an operation whose mathematical result cannot leave its sort ----
+
+type interval struct{ lo, hi *big.Int }
+
+var rngCache = map[int]interval{}
+
+func sortRange(s *Sort) interval { return interval{s.Min(), s.Max()} }
+
+func (iv interval) within(s *Sort) bool {
+	return iv.lo.Cmp(s.Min()) >= 0 && iv.hi.Cmp(s.Max()) <= 0
+}
+
+func minBig(a, b *big.Int) *big.Int {
+	if a.Cmp(b) <= 0 {
+		return a
+	}
+	return b
+}
+func maxBig(a, b *big.Int) *big.Int {
+	if a.Cmp(b) >= 0 {
+		return a
+	}
+	return b
+}
+
+// mathRange: range of the un-wrapped mathematical result of t's top operation (ok=false when
+// the operation is not one the printer wraps).
+func mathRange(t *Term) (interval, bool) {
+	switch t.Op {
+	case OAdd, OAddNW:
+		a, b := rng(t.Args[0]), rng(t.Args[1])
+		return interval{new(big.Int).Add(a.lo, b.lo), new(big.Int).Add(a.hi, b.hi)}, true
+	case OSub, OSubNW:
+		a, b := rng(t.Args[0]), rng(t.Args[1])
+		return interval{new(big.Int).Sub(a.lo, b.hi), new(big.Int).Sub(a.hi, b.lo)}, true
+	case ONeg:
+		a := rng(t.Args[0])
+		return interval{new(big.Int).Neg(a.hi), new(big.Int).Neg(a.lo)}, true
+	case OMul:
+		a, b := rng(t.Args[0]), rng(t.Args[1])
+		ps := []*big.Int{new(big.Int).Mul(a.lo, b.lo), new(big.Int).Mul(a.lo, b.hi), new(big.Int).Mul(a.hi, b.lo), new(big.Int).Mul(a.hi, b.hi)}
+		lo, hi := ps[0], ps[0]
+		for _, p := range ps[1:] {
+			lo, hi = minBig(lo, p), maxBig(hi, p)
+		}
+		return interval{lo, hi}, true
+	case OShl:
+		if t.Args[1].IsConst() && t.Args[1].Val.Sign() >= 0 && t.Args[1].Val.IsInt64() && t.Args[1].Val.Int64() < int64(t.Sort.W) {
+			a := rng(t.Args[0])
+			n := uint(t.Args[1].Val.Int64())
+			return interval{new(big.Int).Lsh(a.lo, n), new(big.Int).Lsh(a.hi, n)}, true
+		}
+	case OConv:
+		return rng(t.Args[0]), true
+	}
+	return interval{}, false
+}
+
+func rng(t *Term) interval {
+	if t.Sort == nil || t.Sort.Kind != SInt {
+		return interval{big.NewInt(0), big.NewInt(1)}
+	}
+	if iv, ok := rngCache[t.id]; ok {
+		return iv
+	}
+	full := sortRange(t.Sort)
+	rngCache[t.id] = full // cycle/depth guard; overwritten below
+	iv := full
+	switch t.Op {
+	case OConst:
+		iv = interval{t.Val, t.Val}
+	case OIte:
+		a, b := rng(t.Args[1]), rng(t.Args[2])
+		iv = interval{minBig(a.lo, b.lo), maxBig(a.hi, b.hi)}
+	case OAddNW, OSubNW:
+		iv, _ = mathRange(t)
+	case OAdd, OSub, ONeg, OMul, OShl, OConv:
+		if m, ok := mathRange(t); ok && m.within(t.Sort) {
+			iv = m
+		}
+	case OShr:
+		if t.Args[1].IsConst() && t.Args[1].Val.Sign() >= 0 && t.Args[1].Val.IsInt64() && t.Args[1].Val.Int64() < 256 {
+			a := rng(t.Args[0])
+			n := uint(t.Args[1].Val.Int64())
+			iv = interval{new(big.Int).Rsh(a.lo, n), new(big.Int).Rsh(a.hi, n)}
+		}
+	case OBitAnd:
+		// x & c with c >= 0: result in [0, c]; x & y with x >= 0: result in [0, x.hi]
+		for i := 0; i < 2; i++ {
+			c := rng(t.Args[i])
+			if c.lo.Sign() >= 0 {
+				if iv.lo.Sign() < 0 || iv.hi.Cmp(c.hi) > 0 {
+					iv = interval{big.NewInt(0), minBig(iv.hi, c.hi)}
+				}
+			}
+		}
+	case ORem:
+		b := rng(t.Args[1])
+		a := rng(t.Args[0])
+		if b.lo.Sign() > 0 {
+			m := new(big.Int).Sub(b.hi, big.NewInt(1))
+			if a.lo.Sign() >= 0 {
+				iv = interval{big.NewInt(0), minBig(m, a.hi)}
+			} else {
+				iv = interval{new(big.Int).Neg(m), m}
+			}
+		}
+	case ODiv:
+		b := rng(t.Args[1])
+		a := rng(t.Args[0])
+		if b.lo.Sign() > 0 && a.lo.Sign() >= 0 {
+			iv = interval{big.NewInt(0), a.hi}
+		}
+	}
+	// never wider than the sort for wrapped operations
+	if t.Op != OAddNW && t.Op != OSubNW {
+		if iv.lo.Cmp(full.lo) < 0 || iv.hi.Cmp(full.hi) > 0 {
+			iv = full
+		}
+	}
+	rngCache[t.id] = iv
+	return iv
+}
+
+// noWrap: the mathematical result of t's top operation provably stays inside t's sort.
+func noWrap(t *Term) bool {
+	m, ok := mathRange(t)
+	return ok && m.within(t.Sort)
 }
